@@ -347,37 +347,37 @@ func (c *Ctx) ruleTypeInfoHelpers() {
 			continue
 		}
 		for _, fn := range P.StaticClosure(top) {
-		allInstrs(fn, func(b *ssa.BasicBlock, ins ssa.Instruction) {
-			ta, ok := ins.(*ssa.TypeAssert)
-			if !ok || typeStr(ta.AssertedType) != "*go/types.Named" {
-				return
-			}
-			n++
-			var detail string
-			lit := Lit{Kind: "cond", Pos: true, Val: nil}
-			_ = lit
-			roots := P.Resolve(ta.X)
-			sawPlain, sawElem, bad := false, false, ""
-			for _, r := range roots {
-				call := P.CallTo(r, "go/types.Unalias")
-				if call == nil {
-					bad = short(P.termDesc(r, false))
-					continue
+			allInstrs(fn, func(b *ssa.BasicBlock, ins ssa.Instruction) {
+				ta, ok := ins.(*ssa.TypeAssert)
+				if !ok || typeStr(ta.AssertedType) != "*go/types.Named" {
+					return
 				}
-				if P.RootsAny(call.Call.Args[0], func(a ssa.Value) bool { return P.CallTo(a, "(*go/types.Pointer).Elem") != nil }) {
-					sawElem = true
-				} else {
-					sawPlain = true
+				n++
+				var detail string
+				lit := Lit{Kind: "cond", Pos: true, Val: nil}
+				_ = lit
+				roots := P.Resolve(ta.X)
+				sawPlain, sawElem, bad := false, false, ""
+				for _, r := range roots {
+					call := P.CallTo(r, "go/types.Unalias")
+					if call == nil {
+						bad = short(P.termDesc(r, false))
+						continue
+					}
+					if P.RootsAny(call.Call.Args[0], func(a ssa.Value) bool { return P.CallTo(a, "(*go/types.Pointer).Elem") != nil }) {
+						sawElem = true
+					} else {
+						sawPlain = true
+					}
 				}
-			}
-			switch {
-			case bad != "":
-				detail = "operand of the *types.Named assertion is not un-aliased: " + bad
-			case !sawPlain || !sawElem:
-				detail = "type resolution does not cover both T and *T through aliases"
-			}
-			c.check(detail == "", "ALIAS/TYPEINFO", "util."+name, P.Pos(ta.Pos()), "Named assertion on Unalias(t) and Unalias(ptr.Elem())", detail)
-		})
+				switch {
+				case bad != "":
+					detail = "operand of the *types.Named assertion is not un-aliased: " + bad
+				case !sawPlain || !sawElem:
+					detail = "type resolution does not cover both T and *T through aliases"
+				}
+				c.check(detail == "", "ALIAS/TYPEINFO", "util."+name, P.Pos(ta.Pos()), "Named assertion on Unalias(t) and Unalias(ptr.Elem())", detail)
+			})
 		}
 	}
 	c.floor("*types.Named assertions in util type helpers", n, 2)
